@@ -27,6 +27,7 @@ import Jamm.Proofs.EncodeMetaLemmas
 import Jamm.Proofs.CommitPagesLemmas
 import Jamm.Proofs.FreelistCover
 import Jamm.Proofs.CheckFileSound
+import Jamm.Proofs.ImplCheckLemmas
 set_option linter.unusedSectionVars false
 open Std
 
@@ -196,5 +197,14 @@ theorem file_check_is_sound (mt : MetaRec) (pg : PageStore) (fileSize pagesize :
     (∀ p, p ∈ sum.reach ++ sum.freelistRun ++ sum.free ↔ 2 ≤ p ∧ p < mt.numPages) ∧
     mt.numPages * pagesize ≤ fileSize :=
   checkFile_sound mt pg fileSize pagesize sum h
+
+/-- "… and the database's own consistency check agrees": `TxInner::check` (`tx.rs:394`, modelled by `implCheck`:
+the depth-first walk over a set of unseen page ids) accepts every file the independent checker accepts — no
+page reached twice, every overflow page and free-list entry still unseen when visited, keys strictly ascending
+within each page, nothing left over at the end.  (So a commit whose file passes the per-commit check is never
+rejected by strict mode, C16.) -/
+theorem own_check_agrees (mt : MetaRec) (pg : PageStore) (fileSize pagesize : Nat) (sum : FileSummary)
+    (h : checkFile mt pg fileSize pagesize = .ok sum) : implCheck mt pg = .ok () :=
+  implCheck_of_checkFile mt pg fileSize pagesize sum h
 
 end Jamm.Props.C05
